@@ -66,6 +66,24 @@ SHARED_BIND = (S(k=T['a']), {'seen': S['k'], 'again': Coalesce(S['nope'], defaul
 SHARED_VARS = Pipe(S(v=Vars()), A.globals.t, Coalesce(S.v.seen, default='unset'), A.globals.r, S.globals.t, A.v.seen, S.globals.r)
 SHARED_VARS_BASE = Pipe(S(v=Vars({'n': 0})), A.globals.t, S.v.n, A.globals.r, S.globals.t, A.v.n, S.globals.r)
 
+def _plain_fn(t):
+    return ('called as a plain function', t['a'])
+
+
+def _fn_with_glomit(t):
+    return ('called as a plain function', t['a'])
+
+
+_fn_with_glomit.glomit = lambda target, scope: ('evaluated through its own glomit', target['a'])
+
+import types as _types
+_ns_with_glomit = _types.SimpleNamespace(glomit=lambda target, scope: ('namespace glomit', target['a']))
+_ns_plain = _types.SimpleNamespace(other=1)
+
+from glom import A as _A, S as _S, Fill as _Fill
+_TEMPLATE_SPEC = (_S(rec=_Fill({'meta': {'by': {}, 'tags': []}, 'v': 1})), {'o': 'owner', 'n': Coalesce('n', default=None)},
+                  _A.rec['meta']['by']['owner'], _S.rec['meta']['tags'].append(T['o']), _S.rec)
+
 POOL = [
     ('path-a.b-1', lambda: {'a': {'b': 1}}, 'a.b'),
     ('path-a.b-2', lambda: {'a': {'b': [2]}}, 'a.b'),
@@ -96,6 +114,14 @@ POOL = [
     ('t-union-sets-in-target', lambda: {'seen': {1}, 'new': {2}}, T['seen'] | T['new']),
     ('t-repeat-list-in-target', lambda: {'row': [0]}, T['row'] * 3),
     ('t-concat-list-and-tuple', lambda: {'tags': ['a'], 'extra': ('x',)}, Coalesce(T['tags'] + T['extra'], default='lists and tuples do not add')),
+    # two spec objects of ONE type (plain functions), one of which carries a glomit attribute of its own: whether an object is a spec is asked of the object
+    ('function-spec-plain', lambda: {'a': 1}, _plain_fn),
+    ('function-spec-with-glomit-attribute', lambda: {'a': 1}, _fn_with_glomit),
+    ('namespace-spec-with-glomit', lambda: {'a': 1}, _ns_with_glomit),
+    ('namespace-without-glomit-in-coalesce', lambda: {'a': 1}, Coalesce(_ns_plain, default='not a spec')),
+    # a constant template under Fill, filled in by a later step of the same spec: every evaluation starts from a fresh copy of the template
+    ('fill-template-written-by-later-step-1', lambda: {'owner': 'first', 'n': 1}, _TEMPLATE_SPEC),
+    ('fill-template-written-by-later-step-2', lambda: {'owner': 'second'}, _TEMPLATE_SPEC),
     ('starstar-over-opaque-leaf', lambda: {'d': Opaque(), 'k': [1]}, '**'),
     ('iterate-opaque', lambda: Opaque(), [T]),
     ('iterate-opaque-with-default', lambda: {'o': Opaque()}, Coalesce(('o', [T]), default='not iterable')),
